@@ -40,10 +40,11 @@ KnownNames == TLCEval(DOMAIN Reg \cup AllSolarisNames)
 
 Log == ndJsonDeserialize(IOEnv.TRACE)
 
-VARIABLES l, voc, fl, scans, oks, oka, okc, bad, ill, unk, undet
-vars == <<l, voc, fl, scans, oks, oka, okc, bad, ill, unk, undet>>
+VARIABLES l, cur, voc, fl, scans, oks, oka, okc, bad, ill, unk, undet
+vars == <<l, cur, voc, fl, scans, oks, oka, okc, bad, ill, unk, undet>>
 
-Init == l = 1 /\ voc = {} /\ fl = 0 /\ scans = <<>> /\ oks = 0 /\ oka = 0 /\ okc = 0 /\ bad = {} /\ ill = {} /\ unk = 0 /\ undet = {}
+NoRun == [pc |-> "none", n |-> 0, out |-> <<>>]
+Init == l = 1 /\ cur = NoRun /\ voc = {} /\ fl = 0 /\ scans = <<>> /\ oks = 0 /\ oka = 0 /\ okc = 0 /\ bad = {} /\ ill = {} /\ unk = 0 /\ undet = {}
 
 Elems(s) == {s[i] : i \in 1..Len(s)}
 
@@ -55,15 +56,18 @@ TagVerdict(F, e, r) ==
   ELSE IF names \cap voc # {} THEN "d_tag.unnamed"
   ELSE IF r.c = e[1] THEN "ok" ELSE "d_tag.code"
 
+\* A scan event takes two steps: Decode runs the machine on the raw bytes and keeps the state it stops in (`cur`: a
+\* concrete value from then on - TLC would re-run a LET-bound machine for every entry judged), Judge compares.
+Decode(e) == cur' = Scan(e.raw, 0, Len(e.raw), Log[fl].cls, Log[fl].le) /\ UNCHANGED <<l, voc, fl, scans, oks, oka, okc, bad, ill, unk, undet>>
 ScanStepT(e) ==
   LET F == Log[fl]
-      st == Scan(e.raw, 0, Len(e.raw), F.cls, F.le) IN
+      st == cur IN
   /\ scans' = Append(scans, l)
   /\ IF st.pc # "done"
      THEN ill' = ill \cup {<<e.f, e.view>>} /\ UNCHANGED <<oks, bad, unk>>
      ELSE IF Len(e.tags) # Len(st.out)
      THEN bad' = bad \cup {<<e.f, l, "tags.count", Len(st.out)>>} /\ UNCHANGED <<oks, ill, unk>>
-     ELSE LET vs == TLCEval([i \in 1..st.n |-> TagVerdict(F, st.out[i], e.tags[i])])
+     ELSE LET vs == [i \in 1..st.n |-> TagVerdict(F, st.out[i], e.tags[i])]
               wrong == {i \in 1..st.n : vs[i] \notin {"ok", "unk"}} IN
           /\ unk' = unk + Cardinality({i \in 1..st.n : vs[i] = "unk"})
           /\ UNCHANGED ill
@@ -97,7 +101,8 @@ CntStep(e) ==
 
 Step ==
   /\ l <= Len(Log)
-  /\ l' = l + 1
+  /\ ~(Log[l].k = "scan" /\ cur.pc = "none")
+  /\ l' = l + 1 /\ cur' = NoRun
   /\ LET e == Log[l] IN
      CASE e.k = "voc" -> voc' = Elems(e.voc) /\ UNCHANGED <<fl, scans, oks, oka, okc, bad, ill, unk, undet>>
        [] e.k = "file" -> fl' = l /\ scans' = <<>> /\ UNCHANGED <<voc, oks, oka, okc, bad, ill, unk, undet>>
@@ -105,9 +110,10 @@ Step ==
        [] e.k = "cnt" -> CntStep(e)
        [] e.k = "end" -> EndStep(e)
 
-Spec == Init /\ [][Step]_vars
+Next == (l <= Len(Log) /\ Log[l].k = "scan" /\ cur.pc = "none" /\ Decode(Log[l])) \/ Step
+Spec == Init /\ [][Next]_vars
 
 Done == l = Len(Log) + 1
 Report == Done => CSVWrite("%1$s", <<ToJson([oks |-> oks, oka |-> oka, okc |-> okc, bad |-> bad, ill |-> ill, unk |-> unk, undet |-> undet])>>, IOEnv.OUT)
-Consumed == TLCGet("stats").diameter - 1 = Len(Log)
+Consumed == TLCGet("stats").diameter - 1 = Len(Log) + Cardinality({i \in 1..Len(Log) : Log[i].k = "scan"})
 =============================================================================
